@@ -502,10 +502,10 @@ def run():
             f_mc = ex.submit(vf.tlc, SPEC, "SharedTables", "SharedTables_MC.cfg" if thorough else "SharedTables_MCq.cfg", sd,
                              workers=6 if thorough else 3, timeout=5400 if thorough else 1500)
             negs = [(nm, inv, ex.submit(vf.tlc, SPEC, "SharedTables", cfg, sd, workers=2, timeout=1500))
-                    for nm, cfg, inv in (("BUG-94: the child marks after the fork", "SharedTables_MC_late.cfg", ("I2",)),
-                                         ("BUG-94, torn unlock", "SharedTables_MC_late2.cfg", ("NoTornUnlock",)),
+                    for nm, cfg, inv in [x for x in (("BUG-94: the child marks after the fork", "SharedTables_MC_late.cfg", ("I2",)),
+                                         ("BUG-94, torn unlock", "SharedTables_MC_late2.cfg" if thorough else None, ("NoTornUnlock",)),
                                          ("Shared() without the parent crawl", "SharedTables_MC_noanc.cfg", ("I2",)),
-                                         ("goroutine.go as it is: function-valued arguments", "SharedTables_MC_codeargs.cfg", ("I1",)))]
+                                         ("goroutine.go as it is: function-valued arguments", "SharedTables_MC_codeargs.cfg", ("I1",))) if x[1]]]
             f_gen = ex.submit(vf.tlc, SPEC, "ConcProg_Gen", "ConcProg_Gen.cfg" if thorough else "ConcProg_Genq.cfg", sd,
                               workers=6 if thorough else 3, timeout=5400 if thorough else 1500)
             f_nl = ex.submit(vf.tlc, SPEC, "ConcProg", "ConcProg_MC_nolock.cfg", sd, workers=1, timeout=900)
